@@ -7,7 +7,8 @@ EXTENDS SyntaxProducer, Revisions, TLC, Json, IOUtils
 
 Docs == ndJsonDeserialize(IOEnv.DOCS)
 
-CONSTANT Emit
+CONSTANTS Emit,
+          Ghosts      \* TRUE: object streams may carry an unreferenced duplicate member (C08 file set only)
 
 VARIABLES di,     \* index of the document being produced
           fin     \* set by the single-successor Finish step (one REPLAY line per behaviour)
@@ -61,20 +62,31 @@ PlanW ==
 
 PlanMisc ==
     /\ PlanStep("misc")
-    /\ \E junk \in JunkChoices, bin \in BOOLEAN, slack \in {0, 2} :
-          plan' = [k |-> plan.k @@ [junk |-> Len(junk), junkbytes |-> junk, bin |-> bin, slack |-> slack]]
+    /\ \E junk \in JunkChoices, bin \in BOOLEAN, slack \in {0, 2}, gh \in BOOLEAN :
+          /\ (gh => Ghosts /\ UseComp(plan.k) /\ HasComp(TheDoc))
+          \* the ghost number lies above every number of the file (incl. the XRef stream objects) and below Size
+          /\ plan' = [k |-> plan.k @@ [junk |-> Len(junk), junkbytes |-> junk, bin |-> bin,
+                                       slack |-> IF gh THEN 2 ELSE slack,
+                                       ghost |-> IF gh THEN MaxAll(TheDoc) + Len(TheDoc.revs) + 1 ELSE 0]]
     /\ PlanNext("filter") /\ UNCHANGED <<out, offs, outer, moffs>>
 
+\* (two steps, so that "no filter", "flate" and "predictor" are equally likely in simulation)
 PlanFilter ==
     /\ PlanStep("filter")
-    /\ \E sfilter \in {"none", "flate", "pred"}, pngft \in 0..5, zblock \in {7, 65535}, crow \in {1, 5} :
+    /\ \E sfilter \in {"none", "flate", "pred"} :
           /\ (plan.k.xref \in {"table1", "tableN"} => sfilter = "none")
-          /\ (sfilter # "pred" => pngft = 0 /\ crow = 1) /\ (sfilter = "none" => zblock = 7)      \* unused knobs fixed
-          /\ LET k == plan.k @@ [sfilter |-> sfilter, pngft |-> pngft, zblock |-> zblock, crow |-> crow]
+          /\ plan' = [k |-> plan.k @@ [sfilter |-> sfilter]]
+    /\ PlanNext("fparams") /\ UNCHANGED <<out, offs, outer, moffs>>
+
+PlanFilterParams ==
+    /\ PlanStep("fparams")
+    /\ \E pngft \in 0..6, zblock \in {7, 65535}, crow \in {1, 5} :
+          /\ (plan.k.sfilter # "pred" => pngft = 0 /\ crow = 1) /\ (plan.k.sfilter = "none" => zblock = 7)      \* unused knobs fixed
+          /\ LET k == plan.k @@ [pngft |-> pngft, zblock |-> zblock, crow |-> crow]
              IN plan' = InitPlan(TheDoc, k) /\ todo' = FilePlan(TheDoc, k)
     /\ UNCHANGED <<out, offs, outer, moffs>>
 
-Plan == PlanXref \/ PlanW \/ PlanMisc \/ PlanFilter
+Plan == PlanXref \/ PlanW \/ PlanMisc \/ PlanFilter \/ PlanFilterParams
 
 Finish == todo = <<>> /\ ~fin /\ fin' = TRUE /\ UNCHANGED <<pvars, di>>
 
@@ -109,7 +121,7 @@ RoundTrip ==
 
 EmitInv ==
     (Emit /\ Done) => PrintT(<<"REPLAY", ToJson([doc |-> di, bytes |-> out, xref |-> K.xref, w |-> K.w, order |-> K.order,
-                                                  junk |-> K.junk, bin |-> K.bin, sfilter |-> K.sfilter, pngft |-> K.pngft, nrevs |-> Len(Doc.revs), cuts |-> plan.cuts,
+                                                  junk |-> K.junk, bin |-> K.bin, sfilter |-> K.sfilter, pngft |-> K.pngft, ghost |-> K.ghost, nrevs |-> Len(Doc.revs), cuts |-> plan.cuts,
                                                   ncomp |-> IF UseComp(K) THEN Cardinality(ContainerNums) ELSE 0,
                                                   redefined |-> Cardinality(Redefined(Doc.revs))])>>)
 =============================================================================
